@@ -262,11 +262,37 @@ def run(ctx):
     adds = L.calls_to(lw, [X + "add_entry", HM + "insert"])
     adds = [(b, c, a, d) for b, c, a, d in adds if L.short(c["p"]) == "add_entry" or (L.recv_of(lw, a) and L.recv_of(lw, a)[1][:1] == ["entries"])]
     occ = []
+    partial = []
     for b, c, a, d in L.calls_to(lw, [HM + "contains_key"]):
         r = L.recv_of(lw, a)
         if r and r[1][:1] == ["entries"]:
             te, fe = L.bool_edges(lw, d[0])
             occ += fe
+    # get(..).is_some() / is_none() are full occupancy tests; is_some_and / map_or / filter look at the
+    # entry's content and therefore treat some present entries (e.g. free ones) as vacant
+    flw = FL.flow(lw)
+    for b, c, a, d in L.calls_to(lw, [HM + "get", HM + "get_mut"]):
+        r = L.recv_of(lw, a)
+        if not (r and r[1][:1] == ["entries"]):
+            continue
+        fw = flw.fwd_slice([d[0]])
+        for bb, cc, aa, dd in L.calls_matching(lw, lambda x: (x.get("p") or "").startswith("std::option::Option::<T>::")):
+            if not any(l in fw for l in FL.op_locals(aa[0])):
+                continue
+            nm = L.short(cc["p"])
+            if nm == "is_some":
+                te, fe = L.bool_edges(lw, dd[0])
+                occ += fe
+            elif nm == "is_none":
+                te, fe = L.bool_edges(lw, dd[0])
+                occ += te
+            elif nm in ("is_some_and", "map_or", "filter", "is_none_or", "and_then", "map"):
+                partial.append((bb, nm))
+    for bb, nm in partial:
+        ctx.violation("R5", "latest-wins:occupancy-test-looks-at-content", "the occupancy test of the header scan goes through `%s`: a slot "
+                      "whose cross-reference entry exists but does not satisfy the predicate (e.g. a free entry written by a later "
+                      "update) counts as vacant, so the scan re-fills it with the stale object body still present in the file" % nm,
+                      lw.where(bb))
     if ctx.floor("R5", "add_entry in latest-wins helper", len(adds), 1):
         for b, c, a, d in adds:
             w = CF.must_pass(lw, [b], [], guard_edges=occ) if occ else [0]
